@@ -42,6 +42,21 @@ def storeFrom? (H : Bytes → Bytes) (σ : State) (b src : Nat) : Option State :
 def setBitsPtr (σ : State) (i id : Nat) : State := σ.setObj i { σ.obj i with bitsId := id }
 def setRefsPtr (σ : State) (i id : Nat) : State := σ.setObj i { σ.obj i with refsId := id }
 
+/-- `l.append(x)` on the list held in container `id`: the container is changed IN PLACE (every object pointing at it sees the new
+element); the element is the object `c` itself, not a copy. -/
+def appendRef (σ : State) (id c : Nat) : State := σ.setR id (σ.refBuf id ++ [c])
+
+/-- `l[k]` for `k ≥ 0` on the list held in container `id`: the very object stored there; `none` = IndexError. -/
+def refAt? (σ : State) (id k : Nat) : Option Nat := (σ.refBuf id)[k]?
+
+/-- `self.ref_offset = k`: only the record of object `i` changes. -/
+def setOff (σ : State) (i k : Nat) : State := σ.setObj i { σ.obj i with off := k }
+
+/-- a mutating call that returns its receiver (`store_*`), as a transition of the heap model (which reports `unit`) -/
+def resultUnit (σ : State) : Option (State × Nat) → State × Out
+  | none => (σ, .err)
+  | some (σ', _) => (σ', .unit)
+
 /-- a method call as a transition of the heap model: a raising call leaves the heap as it was (what it allocated before raising
 is unreachable), a returning call yields the new heap and the returned object. -/
 def result (σ : State) : Option (State × Nat) → State × Out
